@@ -727,7 +727,40 @@ func c04R13(ic *IC, r *Report) {
 		return found
 	}
 	n := 0
+	mentionsDefine := func(e ast.Node) bool {
+		found := false
+		ast.Inspect(e, func(m ast.Node) bool {
+			if id, ok := m.(*ast.Ident); ok {
+				if c, ok := info.Uses[id].(*types.Const); ok && (c.Name() == "defineXStmt" || c.Name() == "defineStmt") {
+					found = true
+				}
+			}
+			return true
+		})
+		return found
+	}
+	type unit struct {
+		name string
+		k    int
+		fl   *ast.FuncLit
+	}
+	var units []unit
 	for k, fl := range (&c02ctx{ic: ic}).closuresOf(fi) {
+		units = append(units, unit{"assign", k, fl})
+	}
+	// the other generators assigning several destinations at once (results of a call): the
+	// replacement is recognised there by its test of the definition kind
+	for _, name := range sortedKeys(ic.F) {
+		g := ic.F[name]
+		if g == fi || g.Decl.Body == nil || g.Decl.Recv != nil {
+			continue
+		}
+		for k, fl := range (&c02ctx{ic: ic}).closuresOf(g) {
+			units = append(units, unit{name, k, fl})
+		}
+	}
+	for _, u := range units {
+		k, fl := u.k, u.fl
 		ast.Inspect(fl.Body, func(m ast.Node) bool {
 			body := loopBody(m)
 			if body == nil {
@@ -748,13 +781,20 @@ func c04R13(ic *IC, r *Report) {
 				if ix := unparen(as.Lhs[0]).(*ast.IndexExpr); !strings.Contains(types.ExprString(ix.X), "data") {
 					return true
 				}
-				n++
 				guarded := false
+				underDefine := false
 				for _, g := range pathGuards(fl.Body, as) {
 					if mentionsRedecl(g.cond) {
 						guarded = true
 					}
+					if g.want && mentionsDefine(g.cond) {
+						underDefine = true
+					}
 				}
+				if u.name != "assign" && !underDefine {
+					return true
+				}
+				n++
 				// or an earlier statement of the same block that handles the redeclared case and leaves
 				path := enclosingPath(fl.Body, as)
 				for i := len(path) - 1; i > 0; i-- {
@@ -774,15 +814,15 @@ func c04R13(ic *IC, r *Report) {
 						}
 					}
 				}
-				r.Check(guarded, "R04.13", fmt.Sprintf("assign/closure#%d/slot-replaced-unless-redeclared", k+1), ic.pos(as.Pos()), "a destination already declared in the scope keeps its variable",
+				r.Check(guarded, "R04.13", fmt.Sprintf("%s/closure#%d/slot-replaced-unless-redeclared", u.name, k+1), ic.pos(as.Pos()), "a destination already declared in the scope keeps its variable",
 					"the closure executing a multiple definition replaces the slot of every destination by a new variable ("+types.ExprString(as.Lhs[0])+" = "+types.ExprString(as.Rhs[0])+") without testing node.redeclared: in a := 1; p := &a; a, c := 2, 3 the variable a is re-created, *p keeps 1 and closures over a keep the old variable, where compiled Go assigns the existing a")
 				return true
 			})
 			return false
 		})
 	}
-	if n == 0 {
-		r.Errorf("R04.13: no slot replacement in a loop over several destinations found in the closures of assign")
+	if n < 3 {
+		r.Errorf("R04.13: only %d slot replacements in a loop over several destinations found (assign, assignFromCall and the compiled-call generator expected)", n)
 	}
 	// (b) producer
 	cfgFn := ic.fn(r, "Interpreter.cfg")
